@@ -84,7 +84,7 @@ def kpm_tensor(m):
 # ----------------------------------------------------------------------------- real layers
 def build_torch(case, t):
     h, d, E, Kd, Vd = dims(case)
-    m = nn.MultiheadAttention(E, h, dropout=0.0, bias=case["bias"], add_bias_kv=case["abkv"], add_zero_attn=case["aza"],
+    m = nn.MultiheadAttention(E, h, dropout=case.get("dropout", 0.0), bias=case["bias"], add_bias_kv=case["abkv"], add_zero_attn=case["aza"],
                               kdim=case["kdim"], vdim=case["vdim"], batch_first=case["bf"], dtype=DT)
     with torch.no_grad():
         if m._qkv_same_embed_dim:
@@ -96,7 +96,7 @@ def build_torch(case, t):
             m.in_proj_bias.copy_(t["bin"]); m.out_proj.bias.copy_(t["bo"])
         if case["abkv"]:
             m.bias_k.copy_(t["bias_k"]); m.bias_v.copy_(t["bias_v"])
-    m.train()
+    m.train() if not case.get("dropout") else m.eval()     # dropout > 0 is compared in eval mode (there it is the identity)
     return m
 
 
@@ -105,13 +105,13 @@ def build_dp(case, state_dict):
     old = torch.get_default_dtype()
     torch.set_default_dtype(DT)
     try:
-        m = DPMultiheadAttention(dims(case)[2], case["h"], dropout=0.0, bias=case["bias"], add_bias_kv=case["abkv"],
+        m = DPMultiheadAttention(dims(case)[2], case["h"], dropout=case.get("dropout", 0.0), bias=case["bias"], add_bias_kv=case["abkv"],
                                  add_zero_attn=case["aza"], kdim=case["kdim"], vdim=case["vdim"], batch_first=case["bf"])
     finally:
         torch.set_default_dtype(old)
     if state_dict is not None:
         m.load_state_dict(state_dict)
-    m.train()
+    m.train() if not case.get("dropout") else m.eval()     # dropout > 0 is compared in eval mode (there it is the identity)
     return m
 
 
